@@ -123,6 +123,14 @@ CHECKS = {
         "Bound: the pools in vf/props/c12.py; pairs only (longer sequences through the inductive argument). parser.current_namespace is written but never read by the parser and is not asserted.",
         "DESIGN.md 3/C12",
     ),
+    "C11": (
+        "model_checking",
+        "CrossHair (z3) exhaustive exploration of (a) all doc-comment token buffers through the real get_doxygen over a stub lexer and (b) all ordered pairs of declaration kinds x comment arrangements in namespace and class context through parse_string; three-valued oracle written from the statement",
+        "Kernel: every token buffer inside the bound is run through the real get_doxygen and compared with 'the documentation comments of the block that immediately precedes the first real token'. "
+        "Hand-over: every ordered pair (kind, arrangement) x (kind, arrangement) is parsed and judged: must-be-X / must-be-None / unspecified per declaration plus the universal clauses (no text twice, never a second declarator, nothing across blank line / access specifier / block boundary, plain comments contribute nothing).",
+        "Bound: kernel buffers <=5 (quick) / 7 (thorough) tokens over 8 kinds; 13 namespace-level and 10 class-level declaration kinds x 11 arrangements, pairs only. Cases the statement leaves open are not asserted (listed in evidence assumptions). D18a/D18b (trailing scan across tokens) are known findings matched by shape.",
+        "DESIGN.md 3/C11",
+    ),
 }
 
 NOT_YET = "no check landed yet in this build (planned engine and bounds: DESIGN.md section 3); not claimed until the check runs green"
